@@ -118,6 +118,7 @@ type Contracts struct {
 	Files    []string
 	CallersOnly []CallersOnlyDecl
 	Noops       []string
+	HavocOn     []HavocOnDecl // unspecified functions under a name prefix lose the listed ghosts
 	Refines     []RefinesDecl
 	PureMethods []string
 }
@@ -134,11 +135,20 @@ type CallersOnlyDecl struct {
 	Label   string
 }
 
+// HavocOnDecl: "havoc-on <name prefix> $g1 $g2": a call of an unspecified function whose full
+// name starts with the prefix leaves the listed ghost variables unknown (so an unmodelled way
+// of doing what the ghosts record is not taken for "nothing happened").
+type HavocOnDecl struct {
+	PkgPath string
+	Prefix  string
+	Ghosts  []string
+}
+
 var clauseRe = regexp.MustCompile(`^(requires|ensures|invariant|assert)(\[[^\]]*\])?\s+(.*)$`)
 
 var keywords = map[string]bool{"contract": true, "iface": true, "pure": true, "axiom": true, "lemma": true, "monitor": true, "ghost": true,
 	"serves": true, "mode": true, "requires": true, "ensures": true, "modifies": true, "modifies-all": true, "loop": true, "let": true,
-	"trusted": true, "abstract": true, "acquires": true, "nonnil": true, "immutable": true, "may-panic": true, "uninterp": true, "callers-only": true, "opt": true, "noop": true, "pure-method": true, "refines": true, "ghost-set": true, "extern": true, "extern-iface": true}
+	"trusted": true, "abstract": true, "acquires": true, "nonnil": true, "immutable": true, "may-panic": true, "uninterp": true, "callers-only": true, "opt": true, "noop": true, "pure-method": true, "refines": true, "ghost-set": true, "extern": true, "extern-iface": true, "havoc-on": true}
 
 func firstWord(s string) string {
 	s = strings.TrimSpace(s)
@@ -461,11 +471,21 @@ func (cs *Contracts) parseFile(p *Program, pkgPath, fname string, f *ast.File) e
 				return fail(fmt.Errorf("refines Impl Iface.Method"))
 			}
 			cs.Refines = append(cs.Refines, RefinesDecl{pkgPath, fs[0], fs[1]})
+		case "havoc-on":
+			fs := strings.Fields(rest)
+			if len(fs) < 2 {
+				return fail(fmt.Errorf("havoc-on <prefix> $ghost..."))
+			}
+			cs.HavocOn = append(cs.HavocOn, HavocOnDecl{pkgPath, fs[0], fs[1:]})
 		case "noop":
 			cs.Noops = append(cs.Noops, pkgPath+"."+strings.TrimSpace(rest))
 		case "pure-method":
 			for _, x := range strings.Fields(strings.ReplaceAll(rest, ",", " ")) {
-				cs.PureMethods = append(cs.PureMethods, pkgPath+"."+x)
+				if strings.Contains(x, "/") {
+					cs.PureMethods = append(cs.PureMethods, x) // full path of a method of another module
+				} else {
+					cs.PureMethods = append(cs.PureMethods, pkgPath+"."+x)
+				}
 			}
 		case "nonnil":
 			for _, x := range strings.Fields(strings.ReplaceAll(rest, ",", " ")) {
